@@ -419,7 +419,16 @@ func (r *RefCount[T]) resolve(ctx context.Context, waitCh, doneCh chan struct{},
 			// before doneCh is closed (deferred above), since the next
 			// resolve call chains on doneCh to know the resolver is idle.
 			<-waitCh
-			return
+			// If we were superseded there is nothing to do. Otherwise the
+			// context was canceled by its owner: call the resolver anyway
+			// (as we do when there is no previous call to wait for) so that
+			// the references are told the outcome.
+			r.mtx.Lock()
+			superseded := r.nonce != nonce
+			r.mtx.Unlock()
+			if superseded {
+				return
+			}
 		case <-waitCh:
 		}
 	}
